@@ -73,6 +73,7 @@ func main() {
 		os.Exit(maxInt(code, 1))
 	}
 	theProg = p
+	p.newFns() // reference list, renames, transparent helpers: computed once, before any rule runs
 	if *dumpFuncs {
 		for _, n := range p.dumpFuncs() {
 			fmt.Println(n)
